@@ -34,6 +34,7 @@ fn run<S: shared::src_trait::Src>(harness: &str, src: &mut S) -> Outcome {
         h if h.starts_with("c02_cut") => r_c01::two_chunks(h[7..].parse().unwrap_or(0), src),
         h if h.starts_with("c01_") || h.starts_with("c06_") || h.starts_with("c03_split") => r_c01::instance(h, src),
         h if h.starts_with("c03_") => r_c03::run(h, src),
+        h if h.starts_with("c11_dup_") => r_c11::dup(h, src),
         "c04_reply_paths" => r_c04::reply_paths(src),
         "c05_gate" => r_c05::gate(src),
         "c12_error_position" => r_c12::error_position(src, 4),
@@ -80,7 +81,13 @@ fn main() {
         r_c11::batch(&args[2]);
         return;
     }
-    if harness.starts_with("c11_") {
+    if harness.starts_with("c11_ft_") {
+        let vals: Vec<u8> = args[2].split(',').filter_map(|x| x.trim().parse::<u64>().ok()).map(|x| x as u8).collect();
+        let out = r_c11::dup_vals(&vals);
+        print(&out, &vals);
+        return;
+    }
+    if harness.starts_with("c11_") && !harness.starts_with("c11_dup_") {
         let vals: Vec<u8> = args[2].split(',').filter_map(|x| x.trim().parse::<u64>().ok()).map(|x| x as u8).collect();
         let out = r_c11::witness(&harness, &vals);
         print(&out, &vals);
